@@ -173,7 +173,16 @@ func (ex *Exec) writeReplay(P string, a *obAgg, repo string) string {
 				rf.Model[k] = v
 			}
 		}
-		if drv := replayDrivers[f.Func]; drv != nil {
+		if tmplDrivers[f.Func] != nil {
+			out, ok, testSrc, vals := ex.runTemplateDriver(f, repo, base)
+			rf.ReplayOut = clip(out, 4000)
+			rf.ReplayTest = testSrc
+			rf.Replayed = ok
+			reproduced = ok
+			for k, v := range vals {
+				rf.Model["probe."+k] = v
+			}
+		} else if drv := replayDrivers[f.Func]; drv != nil {
 			out, ok, testSrc := drv(ex, f, model, repo, base)
 			rf.ReplayOut = clip(out, 4000)
 			rf.ReplayTest = testSrc
